@@ -49,7 +49,7 @@ def statusMax : Nat := Generated.STATUS_MAX
 def statusTry (v : Nat) : Option Nat := if statusMin ≤ v ∧ v ≤ statusMax then some v else none
 
 /-- `StatusCode::is_successful`: `(200..300).contains` -/
-def isSuccessful (c : Nat) : Bool := 200 ≤ c && c < 300
+def isSuccessful (c : Nat) : Bool := Generated.STATUS_SUCCESS_LO ≤ c && c < Generated.STATUS_SUCCESS_HI
 
 /-- Rust's `u16::from_str`: optional single leading `+`, then one or more ASCII digits,
 value ≤ 65535; anything else is an error. -/
